@@ -43,7 +43,7 @@ impl Property for C04 {
     fn cases(tier: Tier) -> u32 {
         match tier {
             Tier::Quick => 10_000,
-            Tier::Thorough => 25_000,
+            Tier::Thorough => 60_000,
         }
     }
 
@@ -57,7 +57,7 @@ impl Property for C04 {
     fn strategy(tier: Tier) -> BoxedStrategy<Case> {
         let maxlen = match tier {
             Tier::Quick => 100u16,
-            Tier::Thorough => 500u16,
+            Tier::Thorough => 200u16,
         };
         (
             chain_params(maxlen),
